@@ -39,7 +39,7 @@ DU = "intf/dummy.py"
 # what each property's hand model transcribes (file, class, function)
 _SERIAL = [(SF, "SerialFrame", f) for f in ("__init__", "hdr_find", "hdr_decode", "foot_validate", "frame_decode", "frame_create")]
 _RECV = [(PR, "ParseRecv", "recv_handle")]
-_REASM = [(COMM, "CommHandler", f) for f in ("_read_hdr", "_read_frame", "_recv_thread")] + \
+_REASM = [(COMM, "CommHandler", f) for f in ("__init__", "_read_hdr", "_read_frame", "_recv_thread")] + \
          [(PA, "Parser", "frame_is_ack"), (PA, "Parser", "frame_is_stream")]
 _REQ = [(PA, "Parser", f) for f in ("_frame_set_data", "_frame_set_single", "_frame_set_bulk", "_frame_set_all", "frame_start",
                                     "frame_cmninfo", "frame_chinfo", "frame_enable", "frame_div")] + \
@@ -49,11 +49,11 @@ _INFO = [(PA, "Parser", f) for f in ("frame_cmninfo_decode", "frame_chinfo_decod
                                          "_chinfo_data_encode")] + \
         [(PA, "Parser", "frame_is_ack"), (PA, "Parser", "frame_is_stream")] + \
         [(DEV, "DDeviceChannelData", "__post_init__"), (DEV, "DDeviceData", "__post_init__"), (DEV, "DeviceChannel", "__init__")]
-_CFG = [(COMM, "CommHandler", f) for f in ("_channel_enable", "_channel_div", "_nxslib_channels_enable", "_nxslib_channels_div",
+_CFG = [(COMM, "CommHandler", f) for f in ("__init__", "_channel_enable", "_channel_div", "_nxslib_channels_enable", "_nxslib_channels_div",
                                             "_ch_divider_default", "_channels_init", "channels_write", "ch_enable", "ch_disable",
                                             "ch_divider", "ch_enable_all", "ch_disable_all", "channels_default_cfg",
                                             "ch_is_enabled", "ch_div_get", "_get_ack", "_get_frame")] + \
-       [(NX, "NxscopeHandler", f) for f in ("channels_default_cfg", "ch_enable", "ch_disable", "ch_disable_all", "ch_divider",
+       [(NX, "NxscopeHandler", f) for f in ("__init__", "channels_default_cfg", "ch_enable", "ch_disable", "ch_disable_all", "ch_divider",
                                             "channels_write")] + \
        [(DEV, "Device", f) for f in ("en_channels_update", "div_channels_update")]
 _LIFE = [(COMM, "CommHandler", f) for f in ("__init__", "_start", "_stop", "connect", "disconnect", "_drop_all", "_drop_all_frames",
@@ -63,9 +63,9 @@ _LIFE = [(COMM, "CommHandler", f) for f in ("__init__", "_start", "_stop", "conn
                                              "stream_stop", "stream_sub", "stream_unsub", "dev_channel_get")] + \
         [(THR, "ThreadCommon", f) for f in ("__init__", "_thread_loop", "thread_start", "thread_stop", "thread_is_alive",
                                             "stop_set", "_stop_is_set", "_stop_clear")]
-_FAN = [(NX, "NxscopeHandler", f) for f in ("_stream_thread", "stream_sub", "stream_unsub", "_stream_start", "_stream_stop",
+_FAN = [(NX, "NxscopeHandler", f) for f in ("__init__", "_stream_thread", "stream_sub", "stream_unsub", "_stream_start", "_stream_stop",
                                             "stream_start", "stream_stop", "_reset_stats", "connect")] + \
-       [(COMM, "CommHandler", f) for f in ("stream_data", "_recv_thread", "_get_stream_frame", "ch_is_enabled", "_channels_init")] + \
+       [(COMM, "CommHandler", f) for f in ("__init__", "stream_data", "_recv_thread", "_get_stream_frame", "ch_is_enabled", "_channels_init")] + \
        [(DEV, "DeviceChannel", "__init__"), (DEV, "Device", "channel_get"), (PA, "Parser", "frame_stream_decode")] + \
        [(THR, "ThreadCommon", f) for f in ("_thread_loop", "thread_start", "thread_stop")]
 _STREAMDEC = [(PA, "Parser", f) for f in ("_stream_data_get", "frame_stream_decode")] + \
